@@ -45,7 +45,8 @@ def gen_command(rnd):
         return rnd.choice(["vio r", "vfds R", "alias", "alias nosuch", "jobs", "cd .", "export A=1", "history", "minfd",
                            "unset A", "alias x=y", "ulimit -n"]) + " " + rnd.choice(REDIRS)
     if k < 0.60:
-        inner = rnd.choice(["vout 1", "alias", "vout 1 | vst f mode=filt", "f1", "nosuchcmd", "vfds C", "vio c", "minfd"])
+        inner = rnd.choice(["vout 1", "alias", "vout 1 | vst f mode=filt", "f1", "nosuchcmd", "vfds C", "vio c", "minfd",
+                            "vfds C > f3", "vfds C 2> f3", "vfds C >> f1 2>&1", "vio c | vfds C > f3", "alias > f3", "vfds C < f1"])
         return rnd.choice(["vpa $(%s)", "vpa `%s`", "B=$(%s)", "vpa x$(%s)y \"$(%s)\"".replace("%s", "%s", 1)]).replace("%s", inner)
     if k < 0.70:
         return rnd.choice(["vio h r <<< hello", "vfds H <<< x", "vio h r < f1", "vio h r < nofile", "vst c mode=cons <<< data"])
